@@ -271,6 +271,12 @@ def _run_impl(case, obs):
             obs["probes"].append(dict(tgt=tgt, rfft=rf, shape=shp, st=st, mesh=(fieldio.mesh_json(val) if st == "ok" else None)))
             if st == "ok" and shp is not None and [int(x) for x in val.n] != list(shp):
                 fail(f"Mesh.ifftn(shape={shp}) returned n={val.n.tolist()}")
+            if st == "ok" and shp is not None and rf and tgt == "kr":
+                # an accepted shape is "the shape of the original mesh": its real transform must be this k-mesh again
+                again = [int(x) for x in val.fftn(rfft=True).n]
+                if again != nk:
+                    fail(f"Mesh.ifftn(rfft=True, shape={shp}) accepted on a k-mesh with n={nk}, but a mesh of that shape "
+                         f"transforms to n={again}: the shape cannot be the original one")
         if nd == 1:  # scalar shape
             st, val = try_(lambda: kr.ifftn(rfft=True, shape=nlist[0]))
             obs["probes"].append(dict(tgt="kr", rfft=True, shape=[nlist[0]], st=st, mesh=(fieldio.mesh_json(val) if st == "ok" else None)))
